@@ -848,6 +848,43 @@ Section Cluster.
     end.
 End Cluster.
 
+(** ** cluster.go askingMultiCache: the ASK redirection path - no cache involved, the replies are unwrapped in order *)
+
+Definition asking_stride (optin skip : bool) (a : argv) : list argv :=
+  if skip then [optin_cmd optin; [bs "ASKING"]; a]
+  else [optin_cmd optin; [bs "ASKING"]; [bs "MULTI"]; [bs "PTTL"; fst (cache_key a)]; a; [bs "EXEC"]].
+
+(** [if arr, err := resps.s[i].ToArray(); err != nil { if preErr := resps.s[i-1].Error(); preErr != nil { err = preErr } … }] *)
+Definition decode_ask (pre ex : rres) : result rres :=
+  match to_array ex with
+  | inr e => Ok (new_error (match res_error pre with Some pe => pe | None => e end))
+  | inl vs => match last_msg vs with Some v => Ok (new_result v) | None => Panic end
+  end.
+
+(** [for i := offset; i < len(resps.s); i += stride { results.s = append(results.s, …) }] *)
+Fixpoint ask_walk (fuel : nat) (skip : bool) (resp : list rres) (i : nat) : result (list rres) :=
+  match fuel with
+  | O => Err 2
+  | S f =>
+    if (i <? length resp)%nat then
+      match (if skip then Ok (rnth i resp) else decode_ask (rnth (i - 1) resp) (rnth i resp)) with
+      | Ok r => match ask_walk f skip resp (i + (if skip then 3 else 6)) with
+                | Ok rs => Ok (r :: rs)
+                | Err e => Err e
+                | Panic => Panic
+                end
+      | Err e => Err e
+      | Panic => Panic
+      end
+    else Ok []
+  end.
+
+Definition asking_multi_cache (srv : argv -> msg) (qerr : argv -> option msg) (optin : bool) (batch : list item)
+  : result (list rres) :=
+  let skip := forallb it_static batch in
+  let resp := redis_wire srv qerr (flat_map (fun it => asking_stride optin skip (it_argv it)) batch) in
+  ask_walk (S (length resp)) skip resp (if skip then 2 else 5).
+
 (** * helper.go doMultiCache: [ret[keys[i]] = resp.val], first transport-level error aborts *)
 
 Fixpoint kv_set {B : Type} (k : key) (v : B) (m : list (key * B)) : list (key * B) :=
@@ -979,7 +1016,8 @@ Definition check_case (c : case) : bool :=
     result_eqb (sum_eqb (list_eqb rres_eqb) err_eqb)
       (cluster_do_multi_cache conn_of
          (fun c items => do_multi_cache (tab_lookup (match assoc_N c lkss with Some t => t | None => [] end)) (tab_srv (tab srvts c)) (tab_q (tab qts c)) optin true items)
-         (fun _ _ => Panic) (redirect_tab redir) 64 [] maxredir batch) obs
+         (fun c items => asking_multi_cache (tab_srv (tab srvts c)) (tab_q (tab qts c)) optin items)
+         (redirect_tab redir) 64 [] maxredir batch) obs
   | CHelper keys resps obs =>
     result_eqb (sum_eqb kvs_eqb err_eqb) (helper_do_multi_cache keys resps []) obs
   end.
